@@ -73,6 +73,9 @@ def bfs_scenarios(quick: bool) -> list[dict]:
     # packets held in the air while timers fire ('late'): at most one held at a time
     for to in (20.0,) if quick else (0.5001, 1.5001, 20.0):
         sc.append({"qos_mode": False, "flat": True, "max_held": 1, "callers": [caller("rq30c9_01", timeout=to)], "dev": ("drop", "dup", "late")})
+    # a caller that gives up while still QUEUED behind a command in trouble, then the link goes (its cancelled future is still queued)
+    sc.append({"qos_mode": False, "flat": True, "callers": [caller("rq30c9_01", timeout=20.0), caller("w2309_02", timeout=0.5001)], "dev": ("drop", "disc")})
+    sc.append({"qos_mode": False, "flat": True, "callers": [caller("rq30c9_01", timeout=20.0), caller("w2309_02", timeout=1.5001), caller("rq30c9_03", timeout=20.0)], "dev": ("drop", "disc")})
     if not quick:
         sc.append({"qos_mode": False, "flat": True, "max_held": 1, "callers": [caller("rq30c9_01", timeout=20.0)], "dev": ("drop", "dup", "late", "wfail", "disc")})
         sc.append({"qos_mode": False, "flat": True, "callers": [caller("rq30c9_01", timeout=20.0), caller("w2309_02", timeout=20.0)], "dev": ("drop", "dup", "disc")})
